@@ -531,7 +531,9 @@ func (st *State) mkEntities(t *entTable, b *entBuilder, rows, n *Term) *SliceV {
 				key := tk + "|" + joinPath("Edges."+f.Name(), l.Path)
 				st.heapUpdateQ(key, ArrS(SInt, SInt), l.IsRef, func(r, old *Term) *Term {
 					if ld != nil {
-						return Ite(isEnt(r), Add(blockBase(ld.block), idxOf(r)), old)
+						fk := st.colGet(h, t, ld.ed.FKCol, rowOf(r))
+						found := And(Not(st.colNull(h, t, ld.ed.FKCol, rowOf(r))), st.rowLive(h, ld.target, fk))
+						return Ite(isEnt(r), Ite(found, Add(blockBase(ld.block), idxOf(r)), IntLit(0)), old)
 					}
 					return Ite(isEnt(r), IntLit(0), old)
 				})
